@@ -12,12 +12,12 @@ use crate::rng::Rng;
 use crate::synth::{fix_rights, Start};
 use crate::walk::*;
 
-struct Bytes<'a> {
+pub struct Bytes<'a> {
     d: &'a [u8],
     i: usize,
 }
 impl<'a> Bytes<'a> {
-    fn next(&mut self) -> u8 {
+    pub fn next(&mut self) -> u8 {
         let v = if self.i < self.d.len() { self.d[self.i] } else { 0 };
         self.i += 1;
         v
@@ -30,6 +30,27 @@ impl<'a> Bytes<'a> {
 /// a monitor adapter that replays the fuzzer's move choices
 struct Chooser<'a, 'b> {
     bytes: &'a mut Bytes<'b>,
+}
+
+/// Three ways of obtaining the start: raw placement bytes, an instance of a directed recipe (recipe id
+/// and RNG seed taken from the input, so the fuzzer can keep and mutate productive ones), or a
+/// synthesised position with an e.p. state set up directly.
+pub fn decode_start(b: &mut Bytes) -> Option<Start> {
+    let mode = b.next();
+    match mode % 4 {
+        0 => {
+            let id = (b.next() as usize) % crate::synth::N_SCEN;
+            let seed = (b.next() as u64) | (b.next() as u64) << 8 | (b.next() as u64) << 16;
+            let mut rng = Rng::new(seed ^ 0xfeed);
+            crate::synth::scenario(&mut rng, id)
+        }
+        1 => {
+            let seed = (b.next() as u64) | (b.next() as u64) << 8 | (b.next() as u64) << 16;
+            let mut rng = Rng::new(seed ^ 0xbead);
+            crate::synth::synth_ep_invented(&mut rng)
+        }
+        _ => decode_position(b).map(|p| Start::plain(p, "fuzz")),
+    }
 }
 
 pub fn decode_position(b: &mut Bytes) -> Option<RPos> {
@@ -87,15 +108,17 @@ fn monitor_for(prop: &str) -> Option<Box<dyn NodeMon>> {
 /// one fuzz input; violations are left in `rep`
 pub fn run(prop: &str, data: &[u8], rep: &mut Report) {
     let mut bytes = Bytes { d: data, i: 0 };
-    let p0 = match decode_position(&mut bytes) {
-        Some(p) => p,
+    let start0 = match decode_start(&mut bytes) {
+        Some(s) => s,
         None => return,
     };
     let mut mon = match monitor_for(prop) {
         Some(m) => m,
         None => return,
     };
-    let start = Start::plain(p0, "fuzz");
+    // the recipe's prelude is played through the library like any other choice
+    let prelude = start0.prelude.clone();
+    let start = Start::plain(start0.pos.clone(), "fuzz");
     let mut b = match setup(&start, rep) {
         Some(b) => b,
         None => {
@@ -124,7 +147,7 @@ pub fn run(prop: &str, data: &[u8], rep: &mut Report) {
             return;
         }
         let x = bytes.next() as usize;
-        let m = choices[x % choices.len()];
+        let m = if ply < prelude.len() && choices.contains(&prelude[ply]) { prelude[ply] } else { choices[x % choices.len()] };
         let lm = crate::conv::lib_move(m);
         if !follow && !b.legal(lm) {
             return;
